@@ -126,7 +126,7 @@ def run(tier, replay=None):
         orders = [[]] + [list(p) for p in itertools.permutations([0, 1, 2])]
         dr = os.path.join(pdir, "ram_orders")
         write_data(dr, "RamData", {"RamProg": RP, "RamEDBs": edbs, "RamExpect": [{"have": False, "m": {}} for _ in edbs], "RamTraces": [],
-                                   "RamSN": [{"have": False, "loops": {}, "att": {}} for _ in edbs], "RamOrders": orders})
+                                   "RamSN": [{"have": False, "loops": {}, "att": {}} for _ in edbs], "RamOrders": orders, "RamClearPolicy": "interp", "RamStored": ramjson.stored_relations(RP)})
         cfgp = os.path.join(dr, "A.cfg")
         open(cfgp, "w").write("SPECIFICATION Spec\nINVARIANT LoopHead TempsCleared EmitFinal\nVIEW View\nCHECK_DEADLOCK FALSE\n")
         rr = tlc.run_tlc(os.path.join(SPEC, "Ram.tla"), cfgp, dr, lib=dr, workers=4, timeout=600)
